@@ -362,6 +362,8 @@ Definition simple_format (v : str) : str := v.
      from_raw_text(s): cls(s, cls._parse_value(s))
      from_value(v):    cls(cls._format_value(v), v)
      raw_text = s:     self._update_raw_text(s); self._value = self._parse_value(s)   -- raw is written first
+                       (parse_first = true models fixes/token-raw-text-parse-first.patch: the value is
+                        parsed before anything is written, so a refused text changes nothing)
      value = v:        self._value = v; self._update_raw_text(self._format_value(v))                  *)
 Record tok (V : Type) := mk_tok { t_raw : str; t_val : V }.
 Arguments mk_tok {V} _ _.
@@ -374,16 +376,16 @@ Arguments SetValue {V} v.
 Definition sv_from_raw_text {V} (parse : str -> res V) (s : str) : res (tok V) :=
   match parse s with Ok v => Ok (mk_tok s v) | Err e => Err e end.
 Definition sv_from_value {V} (format : V -> str) (v : V) : tok V := mk_tok (format v) v.
-Definition sv_step {V} (parse : str -> res V) (format : V -> str) (t : tok V) (o : sv_op V) : tok V * res unit :=
+Definition sv_step {V} (parse : str -> res V) (format : V -> str) (parse_first : bool) (t : tok V) (o : sv_op V) : tok V * res unit :=
   match o with
   | SetRaw s => match parse s with
                 | Ok v => (mk_tok s v, Ok tt)
-                | Err e => (mk_tok s (t_val t), Err e)
+                | Err e => (if parse_first then t else mk_tok s (t_val t), Err e)
                 end
   | SetValue v => (mk_tok (format v) v, Ok tt)
   end.
-Fixpoint sv_run {V} (parse : str -> res V) (format : V -> str) (t : tok V) (ops : list (sv_op V)) : tok V :=
-  match ops with [] => t | o :: r => sv_run parse format (fst (sv_step parse format t o)) r end.
+Fixpoint sv_run {V} (parse : str -> res V) (format : V -> str) (pf : bool) (t : tok V) (ops : list (sv_op V)) : tok V :=
+  match ops with [] => t | o :: r => sv_run parse format pf (fst (sv_step parse format pf t o)) r end.
 
 (* BlockComment (block_comment.py):
      raw_text = s:  self._update_raw_text(s); self._indent, self._value = self._parse_value(s)
@@ -394,17 +396,17 @@ Inductive b_op := BSetRaw (s : str) | BSetValue (v : str) | BSetIndent (i : str)
 Definition b_from_raw_text (m : split_mode) (s : str) : res btok :=
   match block_parse m s with Ok (i, v) => Ok (mk_btok s i v) | Err e => Err e end.
 Definition b_from_value (m : split_mode) (indent v : str) : btok := mk_btok (block_format m indent v) indent v.
-Definition b_step (m : split_mode) (t : btok) (o : b_op) : btok * res unit :=
+Definition b_step (m : split_mode) (parse_first : bool) (t : btok) (o : b_op) : btok * res unit :=
   match o with
   | BSetRaw s => match block_parse m s with
                  | Ok (i, v) => (mk_btok s i v, Ok tt)
-                 | Err e => (mk_btok s (b_indent t) (b_value t), Err e)
+                 | Err e => (if parse_first then t else mk_btok s (b_indent t) (b_value t), Err e)
                  end
   | BSetValue v => (mk_btok (block_format m (b_indent t) v) (b_indent t) v, Ok tt)
   | BSetIndent i => (mk_btok (block_format m i (b_value t)) i (b_value t), Ok tt)
   end.
-Fixpoint b_run (m : split_mode) (t : btok) (ops : list b_op) : btok :=
-  match ops with [] => t | o :: r => b_run m (fst (b_step m t o)) r end.
+Fixpoint b_run (m : split_mode) (pf : bool) (t : btok) (ops : list b_op) : btok :=
+  match ops with [] => t | o :: r => b_run m pf (fst (b_step m pf t o)) r end.
 
 (* ------------------------------------------------------------------------------------------------ *)
 (* Recognisers.  lexr_K s = Some rest when the terminal's compiled pattern matches a prefix of s at
